@@ -231,9 +231,20 @@ def oracle(duration, clock_list, ops):
             return 'call %d (%s): __exit__ returned a true value (the exception would be swallowed)' % (k, op)
         if name == 'exit' and state1 == 'STARTED':
             return 'call %d (%s): the watch is still running after leaving the with block' % (k, op)
-        if name in ('start', 'enter', 'restart') and nreads:
+        if name in ('start', 'enter') and state0 == 'STARTED':
+            # starting (or entering the with block of) a running watch is a no-op: elapsed keeps being
+            # measured from the last (re)start and the splits stay
+            if after != before:
+                return 'call %d (%s) on a running watch changed it (%r -> %r)' % (k, op, before[:4], after[:4])
+        elif name in ('start', 'enter', 'restart'):
+            if not nreads:
+                return 'call %d (%s) (re)started the watch without reading the clock' % (k, op)
             last_start = reads[-1]
             stop_at = None
+            if state1 != 'STARTED':
+                return 'call %d (%s) did not leave the watch running' % (k, op)
+            if after[1] != last_start:
+                return 'call %d (%s): start time %r is not the clock reading %r' % (k, op, after[1], last_start)
             if after[3] != ():
                 return 'call %d (%s) (re)started the watch without clearing the splits' % (k, op)
         if name in ('stop', 'exit') and state0 == 'STARTED':
